@@ -1,6 +1,6 @@
-module verifharness
+module verifharness126
 
-go 1.21
+go 1.26.8
 
 require (
 	github.com/Jigsaw-Code/outline-sdk v0.0.14
